@@ -24,7 +24,7 @@ RULE = ("samples: {BaseSamples,Samples,SMCSamples} x {numpy,torch,jax} x {float3
         "transforms: every class (Identity, Periodic, Logit, Probit, Affine, Composite x 6 option combinations, FlowTransform) "
         "fitted and unfitted x namespace; flows: ZukoFlow / FlowJax x {default, non-default kwargs} x {float32,float64} x "
         "{untrained, trained} x {first save, second save of the same object, save of the reloaded object}, and a zuko flow built without any dtype under torch.set_default_dtype(float64) and reloaded under the stock default; Aspire configs: product over {parameters, prior_bounds, periodic, flow kwargs, xp, dtype, eps, "
-        "bounded_transform} menus via save_config+save_flow -> resume_from_file; value menu for recursively_save_to_h5_file. "
+        "bounded_transform} menus via save_config+save_flow -> resume_from_file, and two instances with different settings writing into the same file one after the other; value menu for recursively_save_to_h5_file. "
         "Oracle: observational equality after reload. non-trivial = object with at least one optional field / fitted state / "
         "non-default setting")
 ASSUMPTIONS = [
@@ -379,27 +379,75 @@ def run_configs(chunk):
 
                 r.violation(f"C13/config/raises/{type(e).__name__}/{exc_site(e)}/flow_kwargs={'nested' if fkw else 'empty'}", repr(e)[:300], case)
                 continue
-            for att in ("dims", "parameters", "periodic_parameters", "prior_bounds", "bounded_to_unbounded", "bounded_transform", "flow_matching",
-                        "flow_backend", "eps", "device"):
-                va, vb = norm(getattr(a, att)), norm(getattr(b, att))
-                if va != vb:
-                    r.violation(f"C13/config/setting-changed/{att}", {"saved": va, "loaded": vb}, case)
-            xa = getattr(a.xp, "__name__", None) if a.xp is not None else None
-            xb = getattr(b.xp, "__name__", None) if b.xp is not None else None
-            if xa != xb:
-                r.violation("C13/config/setting-changed/xp", {"saved": xa, "loaded": xb}, case)
-            da = None if a.dtype is None else str(a.dtype).split(".")[-1]
-            db = None if b.dtype is None else str(b.dtype).split(".")[-1]
-            if da != db:
-                r.violation(f"C13/config/setting-changed/dtype/{da}->{db}", {"saved": da, "loaded": db}, case)
-            fa = {k: v for k, v in norm(a.flow_kwargs).items() if k != "parameters"}
-            fb = {k: v for k, v in norm(b.flow_kwargs).items() if k != "parameters"}
-            if fa != fb:
-                r.violation("C13/config/setting-changed/flow_kwargs", {"saved": fa, "loaded": fb}, case)
+            compare_settings(r, a, b, case)
         if chunk:
             r.sample({"part": "config", "example": list(chunk[0])})
     finally:
         shutil.rmtree(tmp, ignore_errors=True)
+    return r.dump()
+
+
+def compare_settings(r, a, b, case, sig="C13/config"):
+    for att in ("dims", "parameters", "periodic_parameters", "prior_bounds", "bounded_to_unbounded", "bounded_transform", "flow_matching",
+                "flow_backend", "eps", "device"):
+        va, vb = norm(getattr(a, att)), norm(getattr(b, att))
+        if va != vb:
+            r.violation(f"{sig}/setting-changed/{att}", {"saved": va, "loaded": vb}, case)
+    xa = getattr(a.xp, "__name__", None) if a.xp is not None else None
+    xb = getattr(b.xp, "__name__", None) if b.xp is not None else None
+    if xa != xb:
+        r.violation(f"{sig}/setting-changed/xp", {"saved": xa, "loaded": xb}, case)
+    da = None if a.dtype is None else str(a.dtype).split(".")[-1]
+    db = None if b.dtype is None else str(b.dtype).split(".")[-1]
+    if da != db:
+        r.violation(f"{sig}/setting-changed/dtype/{da}->{db}", {"saved": da, "loaded": db}, case)
+    fa = {k: v for k, v in norm(a.flow_kwargs).items() if k != "parameters"}
+    fb = {k: v for k, v in norm(b.flow_kwargs).items() if k != "parameters"}
+    if fa != fb:
+        r.violation(f"{sig}/setting-changed/flow_kwargs", {"saved": fa, "loaded": fb}, case)
+
+
+def run_config_rewrite(order):
+    """Two instances with different settings write their configuration (and flow) into the same file one after the other,
+    through the calls that do so (fit / sample_posterior with checkpoint_path): the file then describes the second one."""
+    from aspire import Aspire
+    from aspire.samples import Samples
+
+    r = Report()
+    tmp = tempfile.mkdtemp(prefix="c13w_")
+
+    def ll(s):
+        return -0.5 * (np.asarray(s.x) ** 2).sum(1)
+
+    def lp(s):
+        return np.zeros(len(s.x))
+
+    rich = dict(parameters=["u", "v"], prior_bounds={"u": [0.0, 1.0], "v": [-5.0, 5.0]}, periodic_parameters=["v"], eps=1e-3,
+                bounded_transform="probit", hidden_features=[8, 8], transforms=2)
+    plain = dict(parameters=["u", "v"], prior_bounds={"u": [0.0, 1.0], "v": [-5.0, 5.0]})
+    first, second = (rich, plain) if order == "rich-then-plain" else (plain, rich)
+    case = {"part": "config-rewrite", "order": order}
+    r.case(explorer.digest(case), nontrivial=True)
+    path = os.path.join(tmp, "c.h5")
+    rng = np.random.default_rng(0)
+    xs = np.stack([0.2 + 0.6 * rng.uniform(size=32), -3 + 6 * rng.uniform(size=32)], axis=1)
+    try:
+        objs = []
+        for i, kw in enumerate((first, second)):
+            a = Aspire(log_likelihood=ll, log_prior=lp, dims=2, xp=get_xp("numpy"), flow_backend="zuko", **kw)
+            a.fit(Samples(x=xs, parameters=kw["parameters"], xp=get_xp("numpy")), n_epochs=1, batch_size=32, checkpoint_path=path, overwrite=i > 0)
+            a.sample_posterior(n_samples=4, sampler="importance", checkpoint_path=path)
+            objs.append(a)
+        b = Aspire.resume_from_file(path, log_likelihood=ll, log_prior=lp)
+    except Exception as e:
+        from env import exc_site
+
+        r.violation(f"C13/config-rewrite/raises/{type(e).__name__}/{exc_site(e)}/{order}", repr(e)[:300], case)
+        shutil.rmtree(tmp, ignore_errors=True)
+        return r.dump()
+    compare_settings(r, objs[1], b, case, sig=f"C13/config-rewrite/{order}")
+    shutil.rmtree(tmp, ignore_errors=True)
+    r.sample(case)
     return r.dump()
 
 
@@ -500,6 +548,7 @@ def run(tier, seed, workers):
     # no explicit dtype anywhere, saving session with torch's default dtype set to float64, loading session with the stock default
     jobs.append(("run_flows", ("zuko", "default", "default64", True)))
     jobs.append(("run_flows", ("zuko", "custom", "default64", False)))
+    jobs += [("run_config_rewrite", "rich-then-plain"), ("run_config_rewrite", "plain-then-rich")]
     cm = config_menu(tier)
     k = max(1, len(cm) // (workers * 2))
     jobs += [("run_configs", cm[i:i + k]) for i in range(0, len(cm), k)]
@@ -521,6 +570,8 @@ def replay(case):
         r.merge(run_transforms(case["ns"]))
     elif part == "flow":
         r.merge(run_flows((case["backend"], case["kwargs"], case["dtype"], case["trained"])))
+    elif part == "config-rewrite":
+        r.merge(run_config_rewrite(case["order"]))
     elif part == "config":
         r.merge(run_configs([(case["parameters"], case["prior_bounds"], case["periodic"], case["flow_kwargs"], case["xp"],
                               case["dtype"], case["eps"], case["bounded_transform"])]))
